@@ -42,3 +42,10 @@ pub fn is_nursery_gc<VM: VMBinding>(mmtk: &MMTK<VM>) -> bool {
 pub fn total_pages<VM: VMBinding>(mmtk: &MMTK<VM>) -> usize {
     mmtk.get_plan().get_total_pages()
 }
+
+/// Is concurrent GC work (e.g. concurrent marking) in progress? Always false for STW plans.
+pub fn concurrent_work_in_progress<VM: VMBinding>(mmtk: &MMTK<VM>) -> bool {
+    mmtk.get_plan()
+        .concurrent()
+        .is_some_and(|p| p.concurrent_work_in_progress())
+}
